@@ -2,13 +2,19 @@ package main
 
 import (
 	"fmt"
+	"os"
 	"go/types"
 	"strings"
 
 	"golang.org/x/tools/go/ssa"
 )
 
+var callCount = map[string]int{}
+
 func (ex *Exec) call(st *State, fr *Frame, ins ssa.Instruction, c *ssa.CallCommon, dst ssa.Value) {
+	if traceCalls {
+		callCount[ex.Prog.Fset.Position(ins.Pos()).String()+" "+calleeName(c)]++
+	}
 	var args []Value
 	for _, a := range c.Args {
 		args = append(args, ex.eval(fr, a))
@@ -114,12 +120,76 @@ func (ex *Exec) pushFrame(st *State, f *ssa.Function, bind []Value, args []Value
 	st.Frames = append(st.Frames, nf)
 }
 
+// checkDisciplines emits the ghost-protocol obligations a function's contract asks for at one of its returns.
+func (ex *Exec) checkDisciplines(st *State, fr *Frame) {
+	if ex.Specs == nil {
+		return
+	}
+	ct := ex.Specs.Contracts[fr.Fn.String()]
+	if ct == nil || len(ct.Discipline) == 0 {
+		return
+	}
+	site := ex.returnSite(fr)
+	if props, ok := ct.Discipline["walkers-drained"]; ok {
+		goal := BoolC(len(st.Open) == 0)
+		ob := &Obligation{Name: fmt.Sprintf("%s/ghost:open/%s", ex.fnName(fr.Fn), site), Kind: "ghost", Goal: goal, Props: props, Fn: fr.Fn.String(),
+			Note: "an ancestor walker is still open at this return: its producer may be parked holding the graph read lock"}
+		if fr.Idx > 0 && fr.Idx <= len(fr.Block.Instrs) {
+			ob.Pos = ex.Prog.Fset.Position(fr.Block.Instrs[fr.Idx-1].Pos())
+		}
+		ex.record(st, ob)
+	}
+	if props, ok := ct.Discipline["locks-released"]; ok {
+		held := false
+		for _, n := range st.Held {
+			if n > 0 {
+				held = true
+			}
+		}
+		// deferred unlocks run before the frame is popped, so this is the state the caller sees
+		ob := &Obligation{Name: fmt.Sprintf("%s/ghost:held/%s", ex.fnName(fr.Fn), site), Kind: "ghost", Goal: BoolC(!held), Props: props, Fn: fr.Fn.String(),
+			Note: "a lock acquired by this function is still held at this return"}
+		ex.record(st, ob)
+	}
+}
+
+// returnSite names a return by what precedes it: the ordinal of the Return instruction among the returns
+// of the function (block order).
+func (ex *Exec) returnSite(fr *Frame) string {
+	n := 0
+	for _, b := range fr.Fn.Blocks {
+		for _, ins := range b.Instrs {
+			if _, ok := ins.(*ssa.Return); ok {
+				if b == fr.Block {
+					return fmt.Sprintf("return#%d", n)
+				}
+				n++
+			}
+		}
+	}
+	return "return#?"
+}
+
 func (ex *Exec) doReturn(st *State, fr *Frame, res Value) {
+	ex.checkDisciplines(st, fr)
 	if len(st.Frames) == 1 {
+		if fr.Idx > 0 && fr.Idx <= len(fr.Block.Instrs) {
+			st.LastReturn = ex.Prog.Fset.Position(fr.Block.Instrs[fr.Idx-1].Pos()).String()
+		}
 		// entry function returns: check postconditions
 		ex.finish(st, fr, res)
 		st.Frames = nil
 		return
+	}
+	if traceCalls && fr.Idx > 0 && fr.Idx <= len(fr.Block.Instrs) {
+		nilr := ""
+		if iv, ok := res.(*IfaceV); ok {
+			nilr = " err=" + iv.ID.String()
+			if len(nilr) > 60 {
+				nilr = nilr[:60]
+			}
+		}
+		callCount["RET "+ex.Prog.Fset.Position(fr.Block.Instrs[fr.Idx-1].Pos()).String()+" "+fr.Fn.Name()+nilr]++
 	}
 	st.Frames = st.Frames[:len(st.Frames)-1]
 	caller := st.Top()
@@ -185,6 +255,9 @@ func (ex *Exec) havocCall(st *State, fr *Frame, ins ssa.Instruction, name string
 	var res Value
 	if sig != nil {
 		res = ex.freshResults(sig, sanitize(shortName(name)))
+		if !strings.HasPrefix(name, "dyn:") && !strings.Contains(name, modulePrefix) {
+			markLib(res)
+		}
 	}
 	ex.setResult(st, fr, dst, res)
 	// the call event is observed with the arguments as they were passed; the callee's writes come after
@@ -640,3 +713,19 @@ func (ex *Exec) copyOp(st *State, a, b Value) Value {
 	ex.havocReach(st, d, map[*Object]bool{})
 	return n
 }
+
+// markLib flags error results of external library calls.
+func markLib(v Value) {
+	switch x := v.(type) {
+	case *IfaceV:
+		if x.Dyn == nil {
+			x.Lib = true
+		}
+	case *TupleV:
+		for _, e := range x.E {
+			markLib(e)
+		}
+	}
+}
+
+var traceCalls = os.Getenv("GOCV_TRACE") == "3"
